@@ -77,6 +77,9 @@ func vC28_write(k *vC28Conn, b []byte) (int, error) {
 func vC28_readFrame(r io.Reader, fp *FramePool, max uint32) ([]byte, error) {
 	k := r.(*vC28Conn)
 	if vNondetBool("readFails") {
+		if vNondetBool("readTimesOut") { // the caller's deadline expired before the peer answered: a net.Error with Timeout()
+			return nil, vC28Timeout{}
+		}
 		return nil, io.ErrUnexpectedEOF
 	}
 	vAssume(k.nRead < k.nWritten) // the server only answers requests it received (otherwise the read blocks)
@@ -84,6 +87,12 @@ func vC28_readFrame(r io.Reader, fp *FramePool, max uint32) ([]byte, error) {
 	k.nRead++
 	return []byte{byte(id)}, nil
 }
+
+type vC28Timeout struct{}
+
+func (vC28Timeout) Error() string   { return "i/o timeout" }
+func (vC28Timeout) Timeout() bool   { return true }
+func (vC28Timeout) Temporary() bool { return true }
 
 func vC28_unmarshal(c *Client, frame []byte) (proto.Message, *Metadata, error) {
 	if vNondetBool("unmarshalFails") {
